@@ -143,6 +143,9 @@ func buildMd(r *rand.Rand, toks []gram.FTok) mdDoc {
 		if r.Intn(3) == 0 {
 			// inline fences: prose, the opening fence, code and the closing fence share lines
 			write(proseWordsInline())
+			if r.Intn(2) == 0 {
+				write([]string{"(", "é", "see:", "\""}[r.Intn(4)]) // prose glued to the opening fence
+			}
 			write("``` ")
 			for li, l := range blk {
 				if li > 0 {
@@ -150,7 +153,14 @@ func buildMd(r *rand.Rand, toks []gram.FTok) mdDoc {
 				}
 				writeLine(l)
 			}
-			write(" ```")
+			if r.Intn(2) == 0 {
+				write("```") // the last token glued to the closing fence
+			} else {
+				write(" ```")
+			}
+			if r.Intn(2) == 0 {
+				write([]string{")", ",", ".", "é", ");", "'"}[r.Intn(6)]) // prose glued to the closing fence
+			}
 			write(" " + proseWordsInline())
 			write(nl())
 		} else {
@@ -325,7 +335,16 @@ func mdUnit(c *Ctx, g *gram.Grammar, seed int64, inject bool, name string, sampl
 		// which token does the diagnostic of the plain run point at? its position in the .md file is the expectation
 		want := ""
 		bnfOff := 0
+		if l, cc := lastRunePos(bnf); strings.Contains(ref.Stdout, "\u241a(") && fmt.Sprintf("%d:%d", l, cc) == mRef[1]+":"+mRef[2] {
+			// the offending token is the end of the file (a one-character last token has the same
+			// position: the token named by the diagnostic decides)
+			ml, mc := lastRunePos(doc.md)
+			want = fmt.Sprintf("%d:%d", ml, mc)
+		}
 		for ti, t := range toks {
+			if want != "" {
+				break
+			}
 			k := strings.Index(bnf[bnfOff:], t.Text)
 			if k < 0 {
 				break
